@@ -97,7 +97,7 @@ struct H {
     long max_latency = 0;
     bool consumer_slept = false, sender_slept = false;
     long evseq = 0;                                      // order of channel events (several can share one virtual microsecond)
-    std::vector<std::pair<long, long>> pop_done_et;      // (order, effective time) of every completed recv; effective = virtual time minus injected clock jumps
+    std::vector<std::pair<long, long>> pop_done_et;      // (order in which the recv() call STARTED, effective time at which it returned); effective = virtual time minus injected clock jumps
     struct SendRec { long start_seq, end_seq; };          // end_seq 0: still inside send()
     std::deque<SendRec> send_recs;
     long et() { return (long)C.L.ctl.vnow - adv_total(); }
@@ -189,6 +189,7 @@ struct H {
     // ---- part B
     void ch_send_photon(long v) { if (chkind == 1) ch2->send<PhotonPause>(v); else if (chkind == 2) ch4->send<PhotonPause>(v); else fch->send<PhotonPause>(v); }
     void ch_send_cpu(long v) { if (chkind == 1) ch2->send<CPUPause>(v); else if (chkind == 2) ch4->send<CPUPause>(v); else fch->send<CPUPause>(v); }
+    long ch_avail() { return chkind == 1 ? (long)ch2->read_available() : chkind == 2 ? (long)ch4->read_available() : (long)fch->read_available(); }
     long ch_recv() { return chkind == 1 ? ch2->recv() : chkind == 2 ? ch4->recv() : fch->recv(); }
     void mark_sent(long v) { send_done_at[v] = C.L.ctl.vnow; send_done_adv[v] = adv_total(); }
     void run_channel_os(int k, const std::vector<long>& r) {
@@ -209,11 +210,11 @@ struct H {
             C.st[id].phase = "channel send";
             long t0e = et(), start_seq = ++evseq;
             send_recs.push_back({start_seq, 0}); SendRec* my_rec = &send_recs.back();
-            if (getenv("C07_DEBUG")) fprintf(stderr, "[c07] et=%ld actor%d send start\n", t0e, id);
+            if (getenv("C07_DEBUG")) fprintf(stderr, "[c07] et=%ld actor%d send start (ring holds %ld)\n", t0e, id, ch_avail());
             ch_send_photon(v);
             mark_sent(v);
             long t1e = et();
-            if (getenv("C07_DEBUG")) fprintf(stderr, "[c07] et=%ld actor%d send done\n", t1e, id);
+            if (getenv("C07_DEBUG")) fprintf(stderr, "[c07] et=%ld actor%d send done (ring holds %ld)\n", t1e, id, ch_avail());
             long my_seq = ++evseq;
             my_rec->end_seq = my_seq;
             // A producer parked on a full ring must be released when space appears, not by its 100 ms periodic re-check:
@@ -221,6 +222,7 @@ struct H {
             if (t1e - t0e > 2000) sender_slept = true;
             if (t1e - t0e > 10000) {
                 long freed = 0, taken = 0;
+                // pops that certainly happened while this send() was in progress and at least 10 ms before it got through
                 for (auto& p : pop_done_et) if (p.first > start_seq && p.second <= t1e - 10000) freed++;
                 // any other send() that overlapped this one may have taken a freed slot (its push can succeed long before the call returns)
                 for (auto& sr : send_recs) if (&sr != my_rec && sr.start_seq < my_seq && (sr.end_seq == 0 || sr.end_seq > start_seq)) taken++;
@@ -231,11 +233,12 @@ struct H {
         } else if (r[0] == OP_CH_RECV) {
             C.st[id].phase = "channel recv";
             uint64_t t0 = ctl.vnow;
+            long recv_start_seq = ++evseq;
             long v = ch_recv();
             uint64_t t1 = ctl.vnow;
             if (!pushed_ok.count(v)) ctl.violation("channel recv returned " + std::to_string(v) + ", a value nobody sent");
-            pop_done_et.push_back({++evseq, et()});
-            if (getenv("C07_DEBUG")) fprintf(stderr, "[c07] et=%ld actor%d recv done\n", et(), id);
+            pop_done_et.push_back({recv_start_seq, et()});    // its pop happened somewhere between these two
+            if (getenv("C07_DEBUG")) fprintf(stderr, "[c07] et=%ld actor%d recv done (ring holds %ld)\n", et(), id, ch_avail());
             popped.insert(v);
             if (popped.count(v) > 1) ctl.violation("channel delivered a value twice");
             int p = (int)(v >> 32); long s = v & 0xffffffff;
